@@ -109,6 +109,13 @@ def _structural():
     cfg6 = {"sig": [1, 1, 1, 1, 1, -1], "start": None, "basis": None}
     yield {"cfg": cfg6, "op": "sw", "a": opnd([1, 2, 4, 8, 16, 32]), "b": opnd(g23_6), "mode": "generic", "cse": True, "symcls": None}
     yield {"cfg": cfg6, "op": "sw", "a": opnd([3, 12]), "b": opnd(g23_6[::-1]), "mode": "generic", "cse": True, "symcls": None}
+    # homogeneous but non-simple operands (a*~a has a grade-4 part) in every array-valued / ndarray-backed representation
+    for sig4 in ([1, 1, 1, 1], [1, 1, -1, -1]):
+        for keys in ([3, 12], [12, 3, 5, 10], [6, 9, 3]):
+            for t_ in ("nd2-float", "nd2-int", "nd-float", "listarr-float", "np.float64", "complex"):
+                tv = {"t": t_, "v": [2, 3, -1, 4][:len(keys)], "im": [1, -2, 3, 1][:len(keys)] if "complex" in t_ else None, "w": 2, "sp": None}
+                o = {"cls": "enum", "keys": list(keys), "vals": ["2", "3", "-1", "4"][:len(keys)], "tvals": tv}
+                yield {"cfg": {"sig": sig4, "start": None, "basis": None}, "op": "normsq", "a": o, "b": None, "mode": "typed", "cse": True, "symcls": None}
     canon16 = sorted(range(16), key=lambda k: (bin(k).count("1"), [j for j in range(4) if k >> j & 1]))
     for sig in ([1, 1, 1, -1], [0, 1, 1, 1]):
         cfg = {"sig": sig, "start": None, "basis": None}
